@@ -1,0 +1,45 @@
+//go:build verif
+
+package peer
+
+// Accessors for the /verif harness (property C33). Add-only, compiled only with -tags verif.
+
+import (
+	"github.com/33cn/chain33/system/p2p/dht/protocol"
+	"github.com/33cn/chain33/types"
+	"github.com/libp2p/go-libp2p/core/network"
+	core "github.com/libp2p/go-libp2p/core/peer"
+)
+
+// VerifNew builds the protocol object without registering handlers or starting loops.
+func VerifNew(env *protocol.P2PEnv) *Protocol { return &Protocol{P2PEnv: env} }
+
+// VerifHandler returns the stream handler of the named protocol.
+func (p *Protocol) VerifHandler(name string) network.StreamHandler {
+	switch name {
+	case "version":
+		return p.handleStreamVersion
+	case "versionOld":
+		return p.handleStreamVersionOld
+	case "peerInfo":
+		return p.handleStreamPeerInfo
+	case "peerInfoOld":
+		return p.handleStreamPeerInfoOld
+	}
+	return nil
+}
+
+// VerifQueryPeerInfo is queryPeerInfo.
+func (p *Protocol) VerifQueryPeerInfo(pid core.ID) (*types.Peer, error) { return p.queryPeerInfo(pid) }
+
+// VerifQueryVersion is queryVersion.
+func (p *Protocol) VerifQueryVersion(pid core.ID) error { return p.queryVersion(pid) }
+
+// VerifRefreshPeerInfo is refreshPeerInfo.
+func (p *Protocol) VerifRefreshPeerInfo(pids []core.ID) { p.refreshPeerInfo(pids) }
+
+// VerifCheckVersionLimit is checkVersionLimit.
+func (p *Protocol) VerifCheckVersionLimit(v string) bool { return p.checkVersionLimit(v) }
+
+// VerifExternalAddr is getExternalAddr.
+func (p *Protocol) VerifExternalAddr() string { return p.getExternalAddr() }
